@@ -1,0 +1,27 @@
+// Unless explicitly stated otherwise all files in this repository are licensed
+// under the Apache License Version 2.0.
+// This product includes software developed at Datadog (https://www.datadoghq.com/).
+// Copyright 2016-2019 Datadog, Inc.
+
+//go:build verif
+
+package pause
+
+import (
+	"io"
+
+	"k8s.io/cli-runtime/pkg/genericclioptions"
+	"sigs.k8s.io/controller-runtime/pkg/client"
+)
+
+// VerifRun runs the body of `kubectl eds pause|unpause` (rolling update) with an injected client (build tag verif).
+func VerifRun(c client.Client, namespace, name string, pause bool, out io.Writer) error {
+	want := unpaused
+	if pause {
+		want = paused
+	}
+	o := newPauseOptions(genericclioptions.IOStreams{Out: out, ErrOut: out}, want)
+	o.client, o.userNamespace, o.userExtendedDaemonSetName, o.args = c, namespace, name, []string{name}
+
+	return o.run()
+}
